@@ -8,9 +8,54 @@ E1 = "bounded-exhaustive model checking: DFS over the choice tree of (rule, data
 
 CHECKS = {
     # id: (engine, technique, level text, design_ref, level_note)
+    "C01": ("E1+E4", E1 + "; every leaf of the other properties' spaces plus 64-bit / double extremes, deep chains to the parser's depth limit and direct calls of every public coercion helper, run in isolated worker processes in several build profiles (overflow checks on and off); a worker that aborts, overflows its stack or stops making progress is localised to the single input",
+            "Totality is a universal claim over inputs x build profiles x entry points; the check closes a stated finite product (millions of executions per run) with panics caught and attributed to their source line, and process-fatal outcomes (abort, stack overflow, hang) observed from outside the process. No reference model is needed: any outcome other than Ok/Err is a violation.",
+            "5/C01", "inputs outside the alphabets (one representative per visible case split) are not covered; hang = no progress for 20 s; stack = 8 MiB"),
+    "C02": ("E1", E1,
+            "Closes the product literal-kind x data x position for the stated alphabets (incl. near-miss spellings of all 35 names, every key of length <= 2 over the operator character set, multi-key objects around every name) - the universal 'evaluates to itself, nothing inside is evaluated, nothing printed' is checked on every member, and each name is shown to dispatch.",
+            "5/C02", "keys longer than 2 characters other than the listed near-miss transforms are not enumerated"),
+    "C03": ("E1", E1,
+            "The whole table operator x operand count 0..6 is enumerated, each rejected count with every operand tuple over V0 (so 'rejected whatever the operands'), each accepted count with a succeeding vector, at top level and nested; the bracket-less spelling is compared with the bracketed one for every non-array value of the corpus.",
+            "5/C03", "counts above 6 are not enumerated; arity table transcribed from the property statement"),
+    "C04": ("E1", E1,
+            "Operation-shaped data (a lookup, an error, a printing log) is pushed through every operand position of every operator via var and via computed values and the result and the captured output are compared with a single-pass reference; tracers count evaluations per operand; the substitution law is closed over E^n (n <= 3) for the 22 eager operators.",
+            "5/C04", "marker set = 4 operation shapes; expression alphabet E of ~24 (34 thorough)"),
+    "C05": ("E1", E1,
+            "All operand lists up to length 6 (7 thorough) over an 8-letter alphabet with position-unique values are executed for if/?:/and/or and compared on value, Err-ness and the exact sequence of log lines, so both 'which value' and 'what was evaluated, in which order' are decided for the whole bounded space.",
+            "5/C05", "lists longer than 7 operands are not enumerated"),
     "C06": ("E1", E1,
             "Every value of the corpus x every provenance channel x every truthiness-testing position is executed on the real code and compared with the table of the statement; exhaustive over the stated alphabet, so a change that makes one position or one channel use a different table is found, not sampled.",
-            "5/C06", "alphabet = V1 + N + string samples; R validated against V8 table"),
+            "5/C06", "alphabet = V1 + N + string samples"),
+    "C07": ("E1", E1,
+            "All ordered pairs over a 169-value corpus (every JSON type, number spellings, ~90 string-to-number spellings) through literal and var operands and the public helper, against a reference that is itself checked pair-by-pair against verdicts recorded from V8; symmetry and exact negation are checked on the real code independently of the reference.",
+            "5/C07-C09", "pairs outside the corpus are not covered; V8 table recorded once with node v20 (fixtures/es_truth.json)"),
+    "C08": ("E1", E1,
+            "Same pair space as C07 for === / !==, plus the same-field-twice forms (containers obtained by evaluation are distinct instances) and the implication === => ==.",
+            "5/C07-C09", "as C07"),
+    "C09": ("E1", E1,
+            "Same pair space for the four relational operators plus all triples over a 30-value (40 thorough) sub-corpus for the between form; converse and conjunction laws are checked between real executions.",
+            "5/C07-C09", "as C07; code-point order for strings as the property states"),
+    "C10": ("E1", E1,
+            "All operand tuples of length 0..2 over a ~140-value arithmetic alphabet (magnitudes 5e-324..1.8e308, integers around 2^53/2^63/2^64, ~90 string spellings, containers), length 3 over 32 (60 thorough), 4-5 over 12, for all seven operators; the returned JSON number must equal the independently computed double exactly, integer-vs-float spelling included.",
+            "5/C10", "tuples longer than 5 are not enumerated; sign of zero not compared (statement says numerically equal)"),
+    "C11": ("E1", E1,
+            "Every data tree of a bounded grammar (depth 2, ~11k trees) x every path of 1..3 segments (~200, incl. escapes, negative / out-of-range indices), all key-operand kinds incl. 64-bit extremes on arrays, strings and objects, defaults x presence classes x channels, and the frame law on the first path step; run with overflow checks on and off.",
+            "5/C11", "trees deeper than 2 / wider than 2 are not enumerated; non-canonical index spellings are unspecified (totality only)"),
+    "C12": ("E1", E1,
+            "All key lists of length 0..3 over 12 keys (4 over 6) incl. duplicates, dotted paths, integer and null keys x 10 data x every threshold 0..n+1, in operand, array and computed forms; results are also tied to var by an oracle-free law on the real code.",
+            "5/C12", "lists longer than 4 are not enumerated"),
+    "C13": ("E1", E1,
+            "All collections of length 0..3 over 8 elements x 3 channels x 28 element expressions (map, filter) and 17 x 9 (reduce expression x initial value), with outer data that makes scope leaks visible; value, Err-ness and log sequence compared with the reference; length / subsequence laws.",
+            "5/C13", "collections longer than 3 are not enumerated"),
+    "C14": ("E1", E1,
+            "All literal collections of 0..3 expression elements over an 8-letter alphabet (incl. poison and tracers after the deciding element), computed arrays, literal and computed strings over 1..4-byte characters, null and non-collections x 13 predicates x the three operators; short-circuit decided by log sequences; none = not some and all(p) = none(not p) checked between real executions.",
+            "5/C14", "collections longer than 3 are not enumerated"),
+    "C15": ("E1", E1,
+            "merge: all operand lists of length 0..4 over 12 values with the length law; in: ~75 needles x ~250 haystacks covering number spellings, nested arrays/objects in both key orders, non-ASCII substrings, null and non-collection haystacks.",
+            "5/C15", "numbers whose exact and double comparison disagree (2^53+1 vs 2^53.0) are unspecified"),
+    "C16": ("E1", E1,
+            "substr: all strings of length 0..4 over {1,2,3,4-byte characters} x start x length over -10..10 plus 64-bit extremes (+ absent length) with the partition law; cat: all operand lists of length 0..3 over 23 values (4 over 8) with the split law at every split point; run with overflow checks on and off.",
+            "5/C16", "strings longer than 4 (5 thorough) characters are covered by a few probes only"),
 }
 
 BUILDING = {
@@ -48,7 +93,7 @@ def main():
             "add_only": True,
         },
         "engines": [
-            {"name": "E1", "path": "harness/src/spaces", "serves_properties": [p for p in props if p in CHECKS and CHECKS[p][0] == "E1"], "kind_free_text": "term explorer: exhaustive DFS over finite input alphabets, real apply() vs reference model R"},
+            {"name": "E1", "path": "harness/src/spaces", "serves_properties": [p for p in props if p in CHECKS and CHECKS[p][0].startswith("E1")], "kind_free_text": "term explorer: exhaustive DFS over finite input alphabets, real apply() vs reference model R"},
             {"name": "E2", "path": "harness/src/history.rs", "serves_properties": ["C17"], "kind_free_text": "explicit-state DFS over call histories; states are fork() snapshots of the real process"},
             {"name": "E3", "path": "harness/src/sched.rs", "serves_properties": ["C17"], "kind_free_text": "preemption-bounded exhaustive schedule exploration of real threads at feature-guarded hook points"},
             {"name": "E4", "path": "harness/src/boundary.rs", "serves_properties": ["C01", "C18", "C19"], "kind_free_text": "full product of invocation forms of the real CLI binary and the real Python package"},
